@@ -762,6 +762,10 @@ impl<F: MatFam> MatExec<F> {
                 }
                 let form = &self.form;
                 let kind = op.a;
+                if op.b > 0 && (kind % 4 == 0 || kind % 4 == 3) {
+                    st.fault_cfg[F_SINK] += 1;
+                    set_sink_fail(op.b);
+                }
                 let (r, fired) = guard(0, m(OWN_MAIN), if op.f > 0 { Some((Cb::Observe, op.f)) } else { None }, || match form {
                     MForm::RM(mm) => F::rm_observe(mm, kind),
                     MForm::CM(mm) => F::cm_observe(mm, kind),
@@ -770,6 +774,9 @@ impl<F: MatFam> MatExec<F> {
                 if fired {
                     st.fault_fired[F_OBSERVE_PANIC] += 1;
                     st.probes[P_OBS_PANIC_FIRED] += 1;
+                }
+                if take_sink_fired() {
+                    st.fault_fired[F_SINK] += 1;
                 }
                 match r {
                     Ok(()) => {}
